@@ -19,6 +19,7 @@ From Coba Require C07.Run.
 From Coba Require C12.Run.
 From Coba Require C08.Run.
 From Coba Require Exp.Run.
+From Coba Require C02.Run.
 Open Scope Z_scope.
 
 Definition dispatch (op : Z) (x : sx) : sx :=
@@ -42,5 +43,6 @@ Definition dispatch (op : Z) (x : sx) : sx :=
   | 8 => C08.Run.run x
   | 1 => Exp.Run.run x
   | 3 => Exp.Run.run x
+  | 2 => C02.Run.run x
   | _ => err 98
   end.
